@@ -8,7 +8,7 @@ from pathwalk import const_val
 
 EXPLANATION = ("Coroutine-witness analysis of every task the driver spawns and of the worker loop: a unit of a bounded hand-off "
                "resource (mpsc permit, mutex guard, semaphore permit) must not be owned across a suspension whose awaited future is "
-               "paced by one peer stream (a stream read). Also: the worker loop's only suspension is its select!, handlers are "
+               "paced by one peer stream (a stream read); the worker's acceptor branches (accept_uni/accept_bi/accept_datagram) await no per-stream read at all. Also: the worker loop's only suspension is its select!, handlers are "
                "synchronous; Driver accept methods hold at most their own queue's guard; queue capacities are >= 1 and the queues "
                "are distinct channels.")
 NOT_DECIDED = ["liveness bounds", "quinn's stream scheduling and flow control"]
